@@ -323,40 +323,57 @@ fn stream_case(w: &[&str]) -> Option<String> {
     for t in &w[1..] {
         msgs.push(unhex(t)?);
     }
-    let r: zbus::Result<String> = zbus::block_on(async move {
-        let (a, mut peer) = UnixStream::pair()?;
-        let guid = zbus::Guid::generate();
-        let conn = zbus::connection::Builder::authenticated_socket(async_io::Async::new(a)?, guid)?
-            .p2p()
-            .build()
-            .await?;
-        let mut stream = zbus::MessageStream::from(&conn);
-        for m in &msgs {
-            peer.write_all(m)?;
-        }
-        peer.flush()?;
-        drop(peer); // EOF after the last message: the stream always ends, no timeouts needed
-        let mut out: Vec<String> = vec![];
-        loop {
-            match stream.next().await {
-                None => {
-                    out.push("N".into());
+    // The connection is driven on its own thread: if the socket-reader task panics, zbus' executor thread dies and
+    // the stream never ends; that is reported as HANG after a generous timeout (normal cases finish in milliseconds).
+    let (tx, rx) = std::sync::mpsc::channel::<String>();
+    std::thread::spawn(move || {
+        let r: zbus::Result<String> = zbus::block_on(async move {
+            let (a, mut peer) = UnixStream::pair()?;
+            let guid = zbus::Guid::generate();
+            let conn = zbus::connection::Builder::authenticated_socket(async_io::Async::new(a)?, guid)?
+                .p2p()
+                .build()
+                .await?;
+            let mut stream = zbus::MessageStream::from(&conn);
+            for m in &msgs {
+                peer.write_all(m)?;
+            }
+            peer.flush()?;
+            drop(peer); // EOF after the last message: the stream always ends, no timeouts needed
+            let mut out: Vec<String> = vec![];
+            loop {
+                match stream.next().await {
+                    None => {
+                        out.push("N".into());
+                        break;
+                    }
+                    Some(Ok(m)) => out.push(format!("M{}", m.primary_header().serial_num())),
+                    Some(Err(zbus::Error::InputOutput(_))) => out.push("E:io".into()),
+                    Some(Err(_)) => out.push("E:msg".into()),
+                }
+                if out.len() > 64 {
                     break;
                 }
-                Some(Ok(m)) => out.push(format!("M{}", m.primary_header().serial_num())),
-                Some(Err(zbus::Error::InputOutput(_))) => out.push("E:io".into()),
-                Some(Err(_)) => out.push("E:msg".into()),
             }
-            if out.len() > 64 {
-                break;
-            }
-        }
-        Ok(out.join(","))
+            Ok(out.join(","))
+        });
+        let _ = tx.send(r.unwrap_or_else(|_| "SETUPERR".into()));
     });
-    Some(r.unwrap_or_else(|_| "SETUPERR".into()))
+    Some(match rx.recv_timeout(std::time::Duration::from_millis(4000)) {
+        Ok(s) => s,
+        Err(_) => "HANG".into(),
+    })
 }
 
 fn main() {
+    if std::env::var_os("HMSG_PANICLOC").is_some() {
+        // debugging aid: where did a panic (possibly on another thread) come from
+        let line = std::io::stdin().lines().next().unwrap().unwrap();
+        std::panic::set_hook(Box::new(|i| eprintln!("panic at {:?} on thread {:?}\n{}", i.location(), std::thread::current().name(), std::backtrace::Backtrace::force_capture())));
+        let w: Vec<&str> = line.split(' ').filter(|x| !x.is_empty()).collect();
+        println!("{:?}", match w[0] { "p" => parse_case(&w), "b" => build_case(&w), _ => stream_case(&w) });
+        return;
+    }
     hcommon::run(|line| {
         let w: Vec<&str> = line.split(' ').filter(|x| !x.is_empty()).collect();
         let r = match w.first().copied() {
